@@ -4,11 +4,10 @@ META = {
     "bounds": "n = 2 symbolic elements per call; the failing allocation index k is symbolic in 0..KMAX (0 = none) and an assertion "
               "proves that no call performs more than KMAX allocations, so every failure position of every call is covered; APIs: "
               "varintDictEncode, DictDecode, DictDecodeInto, DictBuild on a live dictionary (usable afterwards), varintPFOREncode at "
-              "90/95/99, varintAdaptiveEncodeWith / Decode under each forced encoding, varintAdaptiveAnalyze, varintFloatEncode / "
-              "Decode (FULL precision, three exponent modes, thorough tier); bitmap Add / Remove / Clone from every array / bitmap / runs "
+              "90/95/99, varintAdaptiveEncodeWith / Decode under each forced encoding, varintAdaptiveAnalyze; bitmap Add / Remove / Clone from every array / bitmap / runs "
               "shape at scaled constants (incl. both conversions) with a failing allocation: set value, well-formedness and "
               "capacities backed by memory afterwards (bitmap-oom-* queries)",
-    "outside": "n > 2; two simultaneous allocation failures in one call; bitmap AddRange / AddMany / set algebra / Decode under failure; the adaptive BITMAP arm end to end (symbolic execution "
+    "outside": "varintFloatEncode/Decode under failure (no verdict within budget); n > 2; two simultaneous allocation failures in one call; bitmap AddRange / AddMany / set algebra / Decode under failure; the adaptive BITMAP arm end to end (symbolic execution "
                "through create/add/encode/decode at the real container constants does not finish)",
     "assumptions": ["size-dispatch allocator with failure injection (harness/common/vp_alloc.inc): realloc failure leaves the old block valid (C standard)"],
 }
@@ -45,10 +44,8 @@ def queries(tier):
         qs.append(fq("adaptive-encodewith-%s" % NAMES[f], {"API": 4, "FORCE": f}))
         qs.append(fq("adaptive-decode-%s" % NAMES[f], {"API": 5, "FORCE": f}))
     qs.append(fq("adaptive-analyze", {"API": 6}))
-    if not q:
-        for m in (0,):   # one exponent mode: a float cell takes 30-60 minutes and ~25 GB on its own
-            qs.append(fq("float-full-m%d" % m, {"API": 7, "FMODE": m}, to=5400, weight=20))
-            qs[-1].mem_gb = 40
+    # (varintFloatEncode/Decode under allocation failure - harness API 7 - is not registered: one cell needs ~25 GB and did not
+    #  return a verdict within 40 minutes, so the float codec is outside this check)
     # bitmap: long-lived object consistent after a failed allocation.  Pre-state = any well-formed container of a concrete
     # shape (scaled constants through the hook; harness/bitmap/step.c OP 20/21/22), one operation (Add / Remove / Clone) whose
     # k-th allocation fails; post: truthful return, set value right, representation well-formed AND every recorded capacity
